@@ -155,6 +155,8 @@ func hasCycle(evs []AEv) bool {
 	return false
 }
 
+// c06Deviation classifies a failure of the untyped / reference-resolving builder as one of the
+// listed findings of the unchanged tree by its error text and the construct in the stream.
 func c06Deviation(evs []AEv, msg string) string {
 	has := func(m string) bool {
 		for _, e := range evs {
@@ -172,17 +174,29 @@ func c06Deviation(evs []AEv, msg string) string {
 		}
 		return false
 	}
+	in := func(subs ...string) bool {
+		for _, x := range subs {
+			if strings.Contains(msg, x) {
+				return true
+			}
+		}
+		return false
+	}
 	switch {
-	case (arr("abit") || arr("auid") || arr("rref")) && strings.Contains(msg, "Typed array support"):
+	case (arr("abit") || arr("auid") || arr("rref")) && in("Typed array support"):
 		return "untyped-typed-array-todo"
-	case has("OnTime") && (strings.Contains(msg, "[T:") || strings.Contains(msg, " T:")):
-		return "untyped-time-becomes-gotime"
-	case arr("rid") && (strings.Contains(msg, "net/url") || strings.Contains(msg, "A:rid") || strings.Contains(msg, "first path segment")):
-		return "untyped-rid-goes-through-url"
-	case has("OnEdge"):
+	case in("interfaceBuilder.BuildFromLocalReference", "interfaceBuilder.BuildBeginMarker"):
+		return "untyped-reference-todo"
+	case in("SetMapIndex on zero Value") && has("OnMap") && has("OnReferenceLocal"):
+		return "forward-reference-as-map-key"
+	case has("OnEdge") && in("BuildEndContainer", "index out of range"):
 		return "untyped-edge"
-	case has("OnCustomBinary") || has("OnCustomBegin"):
-		return "" // custom types need user configuration: outside the property
+	case has("OnNode") && has("OnMarker") && in("nodeBuilder", "markerObjectBuilder", "not assignable", "topLevelBuilder"):
+		return "node-with-marked-value"
+	case has("OnTime") && in("[T:", " T:"):
+		return "untyped-time-becomes-gotime"
+	case arr("rid") && in("net/url", "A:rid", "first path segment"):
+		return "untyped-rid-goes-through-url"
 	}
 	return ""
 }
@@ -190,9 +204,9 @@ func c06Deviation(evs []AEv, msg string) string {
 func checkC06(c *Check) {
 	c.Rule = "Corpus documents (TLC, RulesGen.tla AlphaDoc: nodes, edges, record types/records, markers/references in every container position, every scalar and array kind) are concretised, encoded by the real CBE and CTE encoders behind rules, and unmarshaled with a nil template: no error, panic or hang; the value is marshaled again (recursion support on) and decoded, and its normalised data must equal the original's with records turned into maps, references replaced by the marked value, markers and comments dropped, map order ignored. non-trivial = document has a container; distinct = (abstract document, seed, format)"
 	c.Assumptions = []string{"harness normaliser and resolver (norm.go, c06.go resolveTokens)", "TLC", "custom binary/text need a user-registered build function and are left out", "self-containing values (a reference to a marker that is still open) are only required to unmarshal, not to re-marshal"}
-	maxLen, reps := 7, 1
+	maxLen, reps := 6, 1
 	if c.Tier == "thorough" {
-		maxLen, reps = 8, 2
+		maxLen, reps = 7, 2
 	}
 	docs := genCorpus(c, maxLen, "corpus")
 	mcfg := configuration.New()
